@@ -110,6 +110,69 @@ pub fn run_c12(rep: &Report) -> serde_json::Value {
             }
         }
     }
+    // a comparison is a function of its two operands: the same pairs in three other orders on this one thread (backwards,
+    // columns first, and with the numbers sorted by magnitude so that each comparison follows one of a smaller value)
+    // give the answers of a fresh evaluation
+    {
+        let fresh = |i: usize, j: usize| -> (Ordering, Ordering) {
+            let (a, b) = (m.u[i].clone(), m.u[j].clone());
+            std::thread::spawn(move || (a.cmp(&b), erltf::borrowed::BorrowedTerm::from(&a).cmp(&erltf::borrowed::BorrowedTerm::from(&b)))).join().unwrap()
+        };
+        let mut by_size: Vec<usize> = (0..n).collect();
+        by_size.sort_by_key(|&i| erltf::encode(&m.u[i]).map(|b| b.len()).unwrap_or(0));
+        let orders: Vec<(&str, Vec<(usize, usize)>)> = vec![
+            ("backwards", (0..n).rev().flat_map(|i| (0..n).rev().map(move |j| (i, j))).collect()),
+            ("columns first", (0..n).flat_map(|j| (0..n).map(move |i| (i, j))).collect()),
+            ("by encoded size", by_size.iter().flat_map(|&i| by_size.iter().map(move |&j| (i, j))).collect()),
+        ];
+        let mut reported = 0;
+        for (oname, pairs) in orders {
+            for (i, j) in pairs {
+                rep.add("evaluations", 1);
+                let (a, b) = (&m.u[i], &m.u[j]);
+                let got = (a.cmp(b), erltf::borrowed::BorrowedTerm::from(a).cmp(&erltf::borrowed::BorrowedTerm::from(b)));
+                let erl = erl_cmp(&denote(a), &denote(b));
+                if (!erl.admits(got.0) || !erl.admits(got.1)) && reported < 20 {
+                    // only a disagreement that a fresh thread does not reproduce is a matter of history
+                    let f = fresh(i, j);
+                    if f != got { reported += 1; rep.violation("the result of a comparison depends on the comparisons made before it on the same thread", json!({"a": show(a), "b": show(b), "order_of_evaluation": oname, "owned_and_zero_copy_now": format!("{:?}", got), "on_a_fresh_thread": format!("{:?}", f), "erlang": format!("{:?}", erl)})); }
+                }
+            }
+        }
+    }
+    // pairs of comparisons between a big integer and a float, one right after the other on one thread: every float of a set
+    // (powers of two 2^53..2^72 and their neighbours, 1e20..1e35) first, then every other one against the integers equal
+    // and adjacent to it; the second answer is Erlang's whatever the first comparison was
+    {
+        use vcore::bigi::BigI;
+        let mut floats: Vec<f64> = vec![1e20, 1e25, 1e30, 1e35, 1.5e22];
+        for k in 53..=72 { let f = 2f64.powi(k); floats.push(f); floats.push(f64::from_bits(f.to_bits() + 1)); floats.push(f64::from_bits(f.to_bits() - 1)); floats.push(f64::from_bits(f.to_bits() + 0x1234_5678_9abc)); }
+        let exact = |f: f64| -> BigI { let bits = f.to_bits(); let e = ((bits >> 52) & 0x7ff) as i32 - 1075; let mant = (bits & ((1u64 << 52) - 1)) | (1u64 << 52); BigI::from_u64_shl(mant, e as u32) };
+        let to_term = |v: &BigI| -> OwnedTerm { let mut b = vec![131u8]; vcore::refcodec::w_term(&mut b, &vcore::refval::RefVal::Int(v.clone())); erltf::decode(&b).expect("integer decodes") };
+        let ints: Vec<Vec<OwnedTerm>> = floats.iter().map(|&f| { let x = exact(f); vec![to_term(&x), to_term(&x.add_small(1)), to_term(&x.add_small(-1))] }).collect();
+        let (floats2, ints2) = (floats.clone(), ints.clone());
+        let bad: Vec<serde_json::Value> = std::thread::spawn(move || {
+            let mut bad = vec![];
+            for (ia, &fa) in floats2.iter().enumerate() {
+                for (ib, &fb) in floats2.iter().enumerate() {
+                    if ia == ib { continue; }
+                    for (k, x) in ints2[ib].iter().enumerate() {
+                        let (ta, tb) = (OwnedTerm::Float(fa), OwnedTerm::Float(fb));
+                        // first comparison (result not judged here), then the one under test
+                        let _ = ints2[ia][0].cmp(&ta);
+                        let _ = erltf::borrowed::BorrowedTerm::from(&ints2[ia][0]).cmp(&erltf::borrowed::BorrowedTerm::from(&ta));
+                        let got = (x.cmp(&tb), erltf::borrowed::BorrowedTerm::from(x).cmp(&erltf::borrowed::BorrowedTerm::from(&tb)));
+                        let want = [Ordering::Equal, Ordering::Greater, Ordering::Less][k];
+                        let which = ["float's value", "float's value + 1", "float's value - 1"][k];
+                        if (got.0 != want || got.1 != want) && bad.len() < 10 { bad.push(json!({"first_comparison_with_float": fa, "then_integer": which, "against_float": fb, "owned_and_zero_copy": format!("{:?}", got), "erlang": format!("{:?}", want)})); }
+                    }
+                }
+            }
+            bad
+        }).join().unwrap();
+        rep.add("evaluations", (floats.len() * floats.len() * 3) as i64);
+        for b in bad { rep.violation("comparison of a big integer with a float gives a wrong answer after another such comparison on the same thread", b); }
+    }
     rep.sample(json!({"a": show(&m.u[3]), "b": show(&m.u[20]), "erlang": format!("{:?}", erl_cmp(&denote(&m.u[3]), &denote(&m.u[20])))}));
     rep.sample(json!({"a": show(&m.u[n - 1]), "b": show(&m.u[n / 2]), "erlang": format!("{:?}", erl_cmp(&denote(&m.u[n - 1]), &denote(&m.u[n / 2])))}));
     json!({
